@@ -64,6 +64,13 @@ class InjectedError(Exception):
     pass
 
 
+class InjectedBase(BaseException):
+    """A runner may die of something that is not an Exception (a test that calls sys.exit(), say)."""
+
+
+CRASH = {None: InjectedError, "exception": InjectedError, "sysexit": SystemExit, "base": InjectedBase}
+
+
 class Worker:
     """A scripted sub-suite."""
 
@@ -89,7 +96,7 @@ class Worker:
         for i, item in enumerate(spec["items"]):
             if spec["crash_after"] is not None and i == spec["crash_after"]:
                 self.crashed = True
-                raise InjectedError(f"runner {self.idx} crashed")
+                raise CRASH[spec.get("crash_kind")](f"runner {self.idx} crashed")
             if spec["kind"] != "raw" and getattr(result, "shouldStop", False):
                 self.emitted.append(("stopped-early", i))
                 return
@@ -106,7 +113,7 @@ class Worker:
                 testtools.clone_test_with_new_id(_PassFail(item[1]), tid).run(result)
         if spec["crash_after"] is not None and spec["crash_after"] >= len(spec["items"]):
             self.crashed = True
-            raise InjectedError(f"runner {self.idx} crashed at the end")
+            raise CRASH[spec.get("crash_kind")](f"runner {self.idx} crashed at the end")
 
 
 class EqualWorker(Worker):
@@ -163,13 +170,15 @@ def gen(tape, big=False):
             else:
                 items.append(["ph", tape.choice("program", PH_OUTCOMES, "outcome")])
         crash = None
+        crash_kind = None
         if tape.chance("faults", 1, 5, "runner-crashes"):
             crash = tape.draw("faults", nitems + 1, "crash-after")
+            crash_kind = tape.weighted("faults", [(4, "exception"), (1, "sysexit"), (1, "base")], "crash-kind")
         ident = tape.weighted("program", [(8, None), (2, "equal"), (1, "unhashable")], "sub-suite-identity")
         route = f"rc{w}"
         if stream_suite and not any(x["route"] is None for x in workers) and tape.chance("program", 1, 6, "route-code-none"):
             route = None      # "route_code is either None or a unicode string" (make_tests' contract)
-        workers.append({"kind": kind, "items": items, "crash_after": crash, "route": route, "identity": ident})
+        workers.append({"kind": kind, "items": items, "crash_after": crash, "crash_kind": crash_kind, "route": route, "identity": ident})
     faults = {"result": {}, "make_tests_after": None, "wrap_raises_at": None, "interrupt": None}
     f = tape.draw("faults", 10, "abort-fault")
     if f == 1:
@@ -522,6 +531,10 @@ def _oracle(out, stream_suite, workers, yielded, faults, plan, sched, state, exc
         _plain_delivery(out, workers, events)
 
 
+def _crash_named(blob):
+    return any(n in blob for n in (b"InjectedError", b"SystemExit", b"InjectedBase"))
+
+
 def _of_route(route_code, rc):
     """Does an event that arrived with route_code come from the worker whose route code is rc?"""
     if rc is None:
@@ -613,8 +626,8 @@ def _check_list_worker_stream(out, w, got):
         if not mine or mine[0]["test_status"] != "inprogress":
             out.violate("event-lost", "stream:inprogress", f"worker {w.idx}: test {tid} events {[d['test_status'] for d in mine]}")
         if tid.startswith("broken-runner"):
-            if not any(d["file_name"] == "traceback" and b"InjectedError" in (d["file_bytes"] or b"") for d in mine) and \
-                    b"InjectedError" not in b"".join((d["file_bytes"] or b"") for d in mine if d["file_name"] == "traceback"):
+            if not any(d["file_name"] == "traceback" and _crash_named(d["file_bytes"] or b"") for d in mine) and \
+                    not _crash_named(b"".join((d["file_bytes"] or b"") for d in mine if d["file_name"] == "traceback")):
                 out.violate("broken-runner-missing", "stream:no-traceback", f"{[(d['file_name'], d['file_bytes']) for d in mine]}")
 
 
@@ -650,7 +663,7 @@ def _plain_delivery(out, workers, events):
         if w.crashed:
             be = [e for e in events if e.thread == th and e.test_id == "broken-runner" and e.method == "addError"]
             det = (be[0].data or {}).get("details") or {}
-            if "traceback" not in det or b"InjectedError" not in det["traceback"]["bytes"]:
+            if "traceback" not in det or not _crash_named(det["traceback"]["bytes"]):
                 out.violate("broken-runner-missing", "plain:no-traceback", f"details {sorted(det)}")
     owners = {w.run_threads[0] for w in workers if w.run_threads}
     for e in events:
